@@ -393,6 +393,12 @@ def remove_block(
         cfi_directives,
     )
 
+    # Outgoing edges have to go first: removing a call edge also removes the
+    # callee's return edges to this block's fallthrough target, which must not
+    # yet include return edges that are about to be moved there from this
+    # block.
+    _remove_outgoing_edges(cache, block)
+
     if can_remove:
         sym_target = proxy_block or next_block or prev_block
         cache.reference_cache.retarget_references(
@@ -416,8 +422,6 @@ def remove_block(
             _update_pe_safe_seh(block, next_block)
 
         _remove_alignment(block)
-
-    _remove_outgoing_edges(cache, block)
 
     _remove_aux_data_entries(block)
 
